@@ -84,6 +84,7 @@ func VerifHarness_C01() {
 		daemon bool
 		static bool
 		viaAff bool
+		dying  bool // deletion requested, still running out its termination grace period: it still holds its node
 	}
 	var pins []podIn
 	for j := 0; j < P; j++ {
@@ -91,11 +92,11 @@ func VerifHarness_C01() {
 		node := verifChoice("p"+js+".node", N+2) - 2
 		kinds := 2
 		if j == 0 {
-			kinds = 4 // the first pod may also be a static pod, or select the group through node affinity
+			kinds = 5 // the first pod may also be a static pod, select the group through node affinity, or be terminating
 		}
 		kind := verifChoice("p"+js+".daemon", kinds) // 0 ordinary, 1 daemonset-owned, 2 static pod selecting the group, 3 selected by a two-expression affinity term
 		daemon := kind == 1
-		pins = append(pins, podIn{node, daemon, kind == 2, kind == 3})
+		pins = append(pins, podIn{node, daemon, kind == 2, kind == 3, kind == 4})
 		var cpu int64
 		switch band {
 		case 0:
@@ -114,6 +115,7 @@ func VerifHarness_C01() {
 			p := w.addPod(g, node, daemon, cpu, 1<<20, false)
 			w.makeStatic(p, kind == 2)
 			w.viaAffinity(p, kind == 3)
+			w.terminating(p, kind == 4)
 		}
 	}
 	w.build()
@@ -136,6 +138,7 @@ func VerifHarness_C01() {
 			w.movePod(p, pins[j].node, pins[j].daemon)
 			w.makeStatic(p, pins[j].static)
 			w.viaAffinity(p, pins[j].viaAff)
+			w.terminating(p, pins[j].dying)
 		}
 	}
 	cs := verifInt("clock.sec", 0, 3)
